@@ -47,9 +47,36 @@ def sim_cases(draw, max_tasks: int = 10, max_hosts: int = 4, max_workers: int = 
     decisions = draw(st.lists(st.integers(0, 1 << 16), max_size=60))
     tail = draw(st.integers(0, 1 << 30))
     inject = draw(st.one_of(st.none(), st.none(), st.none(), st.integers(1, 6)))
+    prelude = None
+    if spec["tasks"] and draw(st.integers(0, 4)) == 0:
+        prelude = draw(prelude_of(spec))
     return {"job": spec, "cluster": cluster, "decisions": decisions, "tail_seed": tail, "inject": inject,
-            "reuse_pre": draw(st.integers(0, 5)) == 0,
+            "reuse_pre": draw(st.integers(0, 5)) == 0, "prelude": prelude, "midtask": draw(st.booleans()),
             "slow_data": draw(st.sampled_from([False, True, "dups"])) if bias == "replication" else False}
+
+
+@st.composite
+def prelude_of(draw, spec: dict):
+    """Another job with the SAME task names (and graph shape) but other output declarations, run to completion in the same process
+    right before the job under test: a run must not depend on what an earlier run() in this process left behind (module-level
+    caches keyed by task or dataset names, registries, class attributes)."""
+    import copy
+
+    pre = copy.deepcopy(spec)
+    for t in pre["tasks"]:
+        n = draw(st.sampled_from([1, 1, 2, 3, 11]))
+        if n == 1:
+            t["outs"] = [draw(st.sampled_from(["__default__", "0", "out", "zz"]))]
+        else:
+            t["outs"] = [str(k) for k in range(n)]
+        t["gpu"] = False
+    for t in pre["tasks"]:
+        for sl in list(t["args"]) + list(t["kwargs"].values()):
+            if "e" in sl:
+                sl["e"] = [sl["e"][0], draw(st.sampled_from(pre["tasks"][sl["e"][0]]["outs"]))]
+    pre["ext"] = [[i, t["outs"][-1]] for i, t in enumerate(pre["tasks"]) if draw(st.booleans())]
+    pre["ext_mode"] = "ctor"
+    return pre
 
 
 @st.composite
@@ -89,6 +116,13 @@ def run_sim(case: dict):
         ch = Chooser(prefix=case["log"], tail_seed=None)
     else:
         ch = Chooser(prefix=case["decisions"], tail_seed=case["tail_seed"])
+    if case.get("prelude"):
+        # an unrelated job with the same task names runs to completion first (its own outcome is not judged here)
+        try:
+            simulate(build_job(case["prelude"]), [{"workers": 2, "gpu": [False, False]}],
+                     Chooser(prefix=[], tail_seed=(case["tail_seed"] ^ 0x2F1D) & 0x3FFFFFFF))
+        except Exception:  # noqa: BLE001
+            pass
     pre = None
     if case.get("reuse_pre"):
         # the Preschedule of a job is computed once and may serve several runs (other cluster shapes, a retry): a first, deterministic
@@ -96,7 +130,8 @@ def run_sim(case: dict):
         first = simulate(job, [{"workers": 1, "gpu": [any(t["gpu"] for t in case["job"]["tasks"])]}],
                          Chooser(prefix=[], tail_seed=(case["tail_seed"] ^ 0x5BD1) & 0x3FFFFFFF))
         pre = first.get("pre")
-    res = simulate(job, case["cluster"], ch, case.get("inject"), slow_data=case.get("slow_data") or False, pre=pre)
+    res = simulate(job, case["cluster"], ch, case.get("inject"), slow_data=case.get("slow_data") or False, pre=pre,
+                   midtask=bool(case.get("midtask")))
     res["job"] = job
     res["chooser"] = ch
     return res
@@ -122,6 +157,12 @@ def general_breaches(res: dict, case: dict) -> list[tuple[str, str, str]]:
         return out
     if isinstance(exc, SimAbort):
         out.append(("C01", "run-aborted", f"run() did not complete: {exc}"))
+        if str(exc) == "deadlock":
+            # nothing is running, queued or in flight any more: what has not been dispatched by now never will be
+            for t in job.tasks:
+                if t not in sim.dispatched:
+                    out.append(("C02", "never-dispatched", f"task {t} was never dispatched (the run came to a standstill: no task running, "
+                                                            f"no message or transfer in flight)"))
         return out
     state = res["state"]
     # completion
@@ -179,6 +220,7 @@ def classify(res: dict, case: dict) -> dict:
         "ext_with_consumer": len(ext_with_consumer), "purged_on_2_hosts": len(purged_multi), "purges": sim.stats["purges"],
         "gpu_tasks": sum(1 for t in spec["tasks"] if t["gpu"]), "injected": case.get("inject") is not None,
         "fetches": sim.stats["fetches"], "late_payload_ignored": sim.stats["late_payload_ignored"],
+        "prelude": bool(case.get("prelude")), "midtask_preemptions": sum(1 for x in sim.trace if x.startswith("P:")),
     }
 
 
@@ -227,6 +269,10 @@ def class_tags(c: dict) -> list[str]:
         tags.append("injected_failure")
     if c["late_payload_ignored"]:
         tags.append("late_payload_ignored")
+    if c.get("prelude"):
+        tags.append("after_prelude_job_with_same_task_names")
+    if c.get("midtask_preemptions"):
+        tags.append("worker_preempted_between_publications")
     return tags
 
 
